@@ -14,6 +14,8 @@ LEAN_MODULES = ["TapkeeVerif.Props.C02"]
 LEAN_EXES = ["model_c02"]
 REQUIRED_THEOREMS = [
     "TapkeeVerif.Knn.isExactKnn_iff",
+    "TapkeeVerif.Knn.isExactKnn_relabel",
+    "TapkeeVerif.Knn.bruteKnn_relabel",
     "TapkeeVerif.Knn.brute_exact",
     "TapkeeVerif.Knn.cover_wrapper_exact",
     "TapkeeVerif.Knn.vptree_build_inv",
